@@ -13,4 +13,19 @@ TEXTS = {
              "extraction + 40-line OCaml driver audited by in-kernel vm_compute; Rust harness.",
         technique="Coq proof by induction (binary-counter invariant = split tree = level-by-level tree) + per-run model/implementation correspondence",
     ),
+    "C16": dict(
+        text="Kernel-checked theorems over an executable model of script.rs/opcodes.rs/address.rs, for every profile, every finite sequence of builder "
+             "operations and every byte string: iterating a built script yields exactly the pushes and opcodes added, with push_int special cases and VERIFY "
+             "folding explicit (C16_readback); which programs panic (C16_build_total); push_slice writes the shortest of the four header forms, all of which "
+             "decode to the same push (C16_min_push, C16_push_forms_decode); instructions_minimal succeeds iff no pushed slice is a single byte in 1..16/0x81 "
+             "(C16_min_iter); script numbers round-trip for |n| < 2^31 and give NumericOverflow beyond, i64::MIN panics iff overflow checks are on "
+             "(C16_scriptint*); one byte-form iff per template predicate (C16_templates, C16_v1plus*); from_script yields an address exactly for the templates "
+             "and its script_pubkey is the original script (C16_from_script, C16_from_script_roundtrip), text round trip relative to C06 (C16_from_script_text). "
+             "Finding F14 is re-derived: from_script(51 01 aa) yields an address whose text does not parse (C16_from_script_refuted in Coq; end to end in the harness).",
+        design_ref="DESIGN.md section 6, C16; finding F14 in section 7",
+        note="Trusted: Coq kernel; hand-written model tied to the code by the per-run correspondence check (debug and release profiles); translator for opcode values; "
+             "extraction + OCaml driver audited by in-kernel vm_compute; Rust harness. The address text codec is property C06 and enters as an explicit premise.",
+        technique="Coq proof (builder invariant over an inductive 'built script' relation, 256-way opcode enumeration in the kernel, sign-magnitude arithmetic) "
+                  "+ per-run model/implementation correspondence incl. an exhaustive length x opcode x push-length sweep around each template",
+    ),
 }
